@@ -84,7 +84,7 @@ theorem mem_execIds_append {l : List (Nat × Nat × Val)} {e : Nat × Nat × Val
     k ∈ (l ++ [e]).map (·.1) ↔ k ∈ l.map (·.1) ∨ k = e.1 := by
   simp
 
-set_option maxHeartbeats 4000000 in
+set_option maxHeartbeats 2000000 in
 theorem safe_stepIface {cfg : Cfg} {s s' : State} {t : Tid} {evs : List Ev} (h : Safe s)
     (hi : Inv s) (hq : QW s)
     (hs : stepIface cfg s t = some (s', evs)) : Safe s' := by
@@ -106,7 +106,7 @@ theorem safe_stepIface {cfg : Cfg} {s s' : State} {t : Tid} {evs : List Ev} (h :
      constructor <;> (try simp only [setPc, execIds] at *) <;>
        grind [holding, wantsResult, pendingId, QW, lookupCmd_append, relcId])
 
-set_option maxHeartbeats 4000000 in
+set_option maxHeartbeats 2000000 in
 theorem safe_stepSolver {cfg : Cfg} {s s' : State} {evs : List Ev} (h : Safe s)
     (hi : Inv s)
     (hs : stepSolver cfg s = some (s', evs)) : Safe s' := by
